@@ -44,10 +44,15 @@ func OpenKV(ctx context.Context, s3opts S3Options, subdir string) (*KV, error) {
 		s3opts.Bucket = inMemoryBucket
 		c = inMemoryS3
 	} else {
-		c, err = getS3(s3opts.Endpoint)
+		client, err := getS3(s3opts.Endpoint)
 		if err != nil {
 			return nil, fmt.Errorf("s3 client: %w", err)
 		}
+		if s3opts.Endpoint == "" {
+			// AWS: the endpoint is the one the SDK resolved from its own configuration
+			s3opts.Endpoint = client.Endpoint
+		}
+		c = client
 	}
 	path := strings.TrimPrefix(strings.TrimPrefix(strings.TrimSuffix(s3opts.Prefix, "/"), "/")+"/"+strings.TrimPrefix(subdir, "/"), "/")
 
